@@ -157,10 +157,10 @@ class H:
         self.read_arrivals += self.nshards
         return self.cmd(f"QUERY {t} COUNT", {"kind": "count", "type": t, "tag": tag}, conn, **extra)
 
-    def replay(self, ctx, t=None, conn=0, tag=None, **extra):
-        text = f"REPLAY {t + ' ' if t else ''}FOR {ctx_text(ctx)}"
+    def replay(self, ctx, t=None, conn=0, tag=None, since=None, **extra):
+        text = f"REPLAY {t + ' ' if t else ''}FOR {ctx_text(ctx)}" + (f' SINCE "{since}"' if since is not None else "")
         self.read_arrivals += 1
-        return self.cmd(text, {"kind": "replay", "ctx": ctx, "type": t, "tag": tag}, conn, **extra)
+        return self.cmd(text, {"kind": "replay", "ctx": ctx, "type": t, "tag": tag, "since": since}, conn, **extra)
 
     def read_all(self, tag=None, replay=True, count=True, types=None, ctxs=None):
         """The standard checkpoint: selection + COUNT per type, REPLAY per context."""
